@@ -173,6 +173,30 @@ theorem rawS_wf (h : ImageHeaderFields) (hg : gridOK h = true) (mm : Bool) (tabl
     obtain ⟨row, _, rfl⟩ := List.mem_map.1 hc
     simp [bandSeg_wf h hg mm row, bandSeg_fshape]
 
+/-! ### the raw nodes refuse no normalised subscript -/
+
+theorem blockList_total (h : ImageHeaderFields) (mm : Bool) (bands bd : Nat) (offs : List Nat) :
+    (mkBlks (blockList h mm bands bd (bounds h) offs)).total = true := by
+  rw [mkBlks_total, List.all_eq_true]
+  intro e he
+  obtain ⟨k, v, _, _, _, rfl⟩ := (mem_blockList h mm bands bd offs e).1 he
+  exact blockChild_total h mm bands bd _ v
+
+theorem rawBPR_total (h : ImageHeaderFields) (mm : Bool) (offs : List Nat) : (rawBPR h mm offs).total = true := by
+  unfold rawBPR
+  simp only []
+  split
+  · cases mm <;> rfl
+  · exact blockList_total h mm _ _ offs
+
+theorem rawS_total (h : ImageHeaderFields) (mm : Bool) (table : List (List Nat)) : (rawS h mm table).total = true := by
+  unfold rawS
+  show (mkSegs _).total = true
+  rw [mkSegs_total, List.all_eq_true]
+  intro c hc
+  obtain ⟨row, _, rfl⟩ := List.mem_map.1 hc
+  exact blockList_total h mm 1 2 row
+
 /-! ### one image segment -/
 
 theorem cplxOK_two {h : ImageHeaderFields} (hc : cplxOK h = true) (iq : Bool) (hq : h.cplx = some iq) : h.nbands = 2 := by
@@ -191,7 +215,7 @@ theorem orientLast_fmt (c : Option Bool) (nb : Nat) (o : ReaderOptions) : (orien
 /-- everything the theorems below need to know about a tree `assembleImage h o true` returned -/
 structure Assembled (h : ImageHeaderFields) (o : ReaderOptions) (t : Seg) : Prop where
   ex : ∃ (X : Seg) (bd : Nat) (w : Option Bool × List Nat × List Nat),
-    t = wrap w X ∧ bd = rawBandDim h.imode ∧ OrientOK h.nrows h.ncols h.nbands bd o w ∧ X.wf = true ∧
+    t = wrap w X ∧ X.total = true ∧ bd = rawBandDim h.imode ∧ OrientOK h.nrows h.ncols h.nbands bd o w ∧ X.wf = true ∧
     X.fshape = getShape h.nrows h.ncols h.nbands bd ∧ w.1 = h.cplx ∧ (∀ iq, w.1 = some iq → h.nbands = 2) ∧
     (Valid h → RawSpec X h.nrows h.ncols h.nbands bd (pixelSrc h))
 
@@ -204,7 +228,7 @@ theorem assembleImage_assembled {h : ImageHeaderFields} {o : ReaderOptions} {t :
     obtain ⟨h2, hg, hc, table, htab, rfl⟩ := assembleS_ok hok
     have hl := bandOffsets_length htab
     have h1 : h.nbands ≠ 1 := by omega
-    refine ⟨rawS h o.memmap table, 2, _, rfl, by rw [hS]; rfl, orientLast_ok _ _ _ _ o ho, rawS_wf h hg _ table hl h2,
+    refine ⟨rawS h o.memmap table, 2, _, rfl, rawS_total h _ table, by rw [hS]; rfl, orientLast_ok _ _ _ _ o ho, rawS_wf h hg _ table hl h2,
       rawS_fshape h _ table hl h2, orientLast_fmt _ _ _, ?_, ?_⟩
     · intro iq hq; rw [orientLast_fmt] at hq; exact cplxOK_two hc iq hq
     · intro hv pt hy0 hy1 hx0 hx1 b hb
@@ -218,7 +242,7 @@ theorem assembleImage_assembled {h : ImageHeaderFields} {o : ReaderOptions} {t :
       | P => rw [hi] at hok; exact hok
       | R => rw [hi] at hok; exact hok
     obtain ⟨hnb, hg, hc, offs, hoffs, hlen, rfl⟩ := assembleBPR_ok hok'
-    refine ⟨rawBPR h o.memmap offs, rawBandDim h.imode, _, rfl, rfl, orientBPR_ok h o ho hS, rawBPR_wf h hg hnb _ offs,
+    refine ⟨rawBPR h o.memmap offs, rawBandDim h.imode, _, rfl, rawBPR_total h _ offs, rfl, orientBPR_ok h o ho hS, rawBPR_wf h hg hnb _ offs,
       rawBPR_fshape h _ offs, orientBPR_fmt h o, ?_, ?_⟩
     · intro iq hq; rw [orientBPR_fmt] at hq; exact cplxOK_two hc iq hq
     · intro hv pt hy0 hy1 hx0 hx1 b hb
@@ -241,8 +265,17 @@ theorem assemble_assembled {h : ImageHeaderFields} {o : ReaderOptions} {t : Seg}
 /-- **every tree the assembly returns is well formed**, so `C01Seg.read_refines` (reading a sub-region = slicing the full image),
     `full_shape` and `read_in_store` apply to every uncompressed NITF layout -/
 theorem assemble_wf {h : ImageHeaderFields} {o : ReaderOptions} {t : Seg} (hok : assemble h o = .ok t) : t.wf = true := by
-  obtain ⟨_, ⟨X, bd, w, rfl, _, hw, hX, hXs, _, hc, _⟩⟩ := assemble_assembled hok
+  obtain ⟨_, ⟨X, bd, w, rfl, _, _, hw, hX, hXs, _, hc, _⟩⟩ := assemble_assembled hok
   exact wrap_wf X _ _ _ bd o w hw hX hXs hc
+
+/-- **the assembled tree refuses no normalised subscript** (no kept-band complex node): `t.accepts ts` holds for every `ts`, so the
+    premise of `C01Seg.read_refines` is met -/
+theorem assemble_total {h : ImageHeaderFields} {o : ReaderOptions} {t : Seg} (hok : assemble h o = .ok t) : t.total = true := by
+  obtain ⟨_, ⟨X, bd, w, rfl, htot, _⟩⟩ := assemble_assembled hok
+  exact wrap_total w X htot
+
+theorem assemble_accepts {h : ImageHeaderFields} {o : ReaderOptions} {t : Seg} (hok : assemble h o = .ok t) (ts : List NSlice) :
+    t.accepts ts = true := accepts_of_total t (assemble_total hok) ts
 
 theorem formattedShape_eq (rows cols : Nat) (h : ImageHeaderFields) (o : ReaderOptions) :
     formattedShape rows cols h o = match h.cplx with
@@ -257,14 +290,14 @@ theorem formattedShape_eq (rows cols : Nat) (h : ImageHeaderFields) (o : ReaderO
     axis for a single band or an I/Q pair) -/
 theorem assemble_shape {h : ImageHeaderFields} {o : ReaderOptions} {t : Seg} (hok : assemble h o = .ok t) :
     t.fshape = formattedShape h.nrows h.ncols h o := by
-  obtain ⟨_, ⟨X, bd, w, rfl, _, hw, hX, hXs, hfmt, hc, _⟩⟩ := assemble_assembled hok
+  obtain ⟨_, ⟨X, bd, w, rfl, _, _, hw, hX, hXs, hfmt, hc, _⟩⟩ := assemble_assembled hok
   rw [wrap_fshape X _ _ _ bd o w hw hXs hc, formattedShape_eq, hfmt]
   cases h.cplx <;> rfl
 
 /-- **advertised raw shape** (the shape of `read_raw`): rows, cols and the bands at the axis the IMODE puts them -/
 theorem assemble_raw_shape {h : ImageHeaderFields} {o : ReaderOptions} {t : Seg} (hok : assemble h o = .ok t) :
     (below t).fshape = rawShapeOf h := by
-  obtain ⟨_, ⟨X, bd, w, rfl, hbd, _, _, hXs, _⟩⟩ := assemble_assembled hok
+  obtain ⟨_, ⟨X, bd, w, rfl, _, hbd, _, _, hXs, _⟩⟩ := assemble_assembled hok
   rw [wrap_below, hXs, hbd]; rfl
 
 theorem InR_rc (rows cols : Nat) (o : ReaderOptions) (tail : List Nat) (idx : Idx) (hin : InR (rcShape rows cols o ++ tail) idx) :
@@ -286,7 +319,7 @@ theorem assemble_spec {h : ImageHeaderFields} {o : ReaderOptions} {t : Seg} (hv 
     (idx : Idx) (hin : InR t.fshape idx) :
     t.fullSrc.get idx = formattedSrc h o (idx 0).toNat (idx 1).toNat (idx 2).toNat := by
   have hsh := assemble_shape hok
-  obtain ⟨_, ⟨X, bd, w, rfl, _, hw, hX, hXs, hfmt, hc, hraw⟩⟩ := assemble_assembled hok
+  obtain ⟨_, ⟨X, bd, w, rfl, _, _, hw, hX, hXs, hfmt, hc, hraw⟩⟩ := assemble_assembled hok
   rw [hsh, formattedShape_eq] at hin
   have hin' : ∃ tail, InR (rcShape h.nrows h.ncols o ++ tail) idx ∧ (h.cplx = none → h.nbands ≠ 1 → tail = [h.nbands]) := by
     cases hq : h.cplx with
@@ -314,7 +347,7 @@ theorem assemble_read_spec {h : ImageHeaderFields} {o : ReaderOptions} {t : Seg}
     (t.readSrc ts).get idx =
       formattedSrc h o (selIdx ts idx 0).toNat (selIdx ts idx 1).toNat (selIdx ts idx 2).toNat := by
   have hwf := assemble_wf hok
-  have href := read_refines Src.leaf Src.fill t hwf ts hts
+  have href := read_refines_total Src.leaf Src.fill t hwf (assemble_total hok) ts hts
   refine ⟨href.1, ?_⟩
   have h1 := href.2 idx (by rw [href.1]; exact hin)
   rw [show t.readSrc ts = t.read Src.leaf Src.fill ts from rfl, h1]
